@@ -163,6 +163,7 @@ def tagFileVersion (content name : Str) : Except FileErr (Option Str) :=
 
 inductive ApiErr where
   | tagNotRecognized    -- `Tags.getTag` on an entry of the preferred tags that is not a tag (`type:exact`, `warn:1`, …)
+  | walk (e : Err)      -- an error of the VRO walk itself (`walkF`)
   | badExpr
   | notFound            -- RuntimeError("Unable to find product … specified in <file>")
   | file (e : FileErr)
@@ -247,5 +248,44 @@ def findTaggedFromFile (C : Ctx) (q : ApiReq) (content : Str) : Except ApiErr (O
       match localProd C v with
       | some p => .ok (some p)
       | none => if q.force then .ok none else .error .notFound
+
+/-! ## a VRO entry that names a tag file (`os.path.isfile(vroTag)`, Eups.py l.944-955)
+
+`findProductFromVRO` treats an entry that is the name of an existing file as a tag file: the file says which version,
+`findProduct` finds it; "not listed" means `continue`, an ill-formed line or a version declared nowhere is an exception that
+leaves the walk.  The file test comes behind the directives (`path`, `keep`, `commandLine`, the version entries, `warn`) and
+in front of the tag lookup, so a file wins over a tag of the same name.  `files`: the files that exist, with their text. -/
+
+def isDirective (r : Req) (e : Str) : Bool :=
+  e == kPath || (0 < r.depth && e == kKeep) || e == kCommandLine || isVT e || isWarn e
+
+def lookupEntryF (C : Ctx) (files : List (Str × Str)) (q : ApiReq) (r : Req) (e : Str) (post : List Str) :
+    Except ApiErr Outcome :=
+  match (if isDirective r e then none else lookupKey e files) with
+  | some content =>
+    match findTaggedFromFile C q content with
+    | .error err => .error err
+    | .ok (some p) => .ok (.hit p e)
+    | .ok none => .ok .skip
+  | none =>
+    match lookupEntry C r e post with
+    | .error err => .error (.walk err)
+    | .ok o => .ok o
+
+def walkF (C : Ctx) (files : List (Str × Str)) (q : ApiReq) (r : Req) : List Str → Except ApiErr (Option Hit)
+  | [] => .ok none
+  | e :: post =>
+    match lookupEntryF C files q r e post with
+    | .error err => .error err
+    | .ok .skip => walkF C files q r post
+    | .ok .abort => .ok none
+    | .ok (.hit p reason) => .ok (some ⟨p, reason, e⟩)
+
+/-- `findProductFromVRO` when some entries of the VRO may name tag files -/
+def findF (C : Ctx) (files : List (Str × Str)) (q : ApiReq) (r : Req) (vro : List Str) : Except ApiErr (Option Hit) :=
+  match walkF C files q r vro with
+  | .error err => .error err
+  | .ok none => .ok none
+  | .ok (some h) => .ok (some (applyAlready r vro h))
 
 end EupsModel.Vro
